@@ -13,7 +13,7 @@ pub fn def() -> PropDef {
         job_level,
         run_job,
         replay,
-        rule: "config: virtual key v1 = x (and v2 = layer-while-held, observed through a layer-dependent key) operated by: physical keys with (on-press press|release|tap|toggle-vkey), (on-release toggle-vkey), a macro item, the TCP path (handle_fakekey_action exactly as tcp_server.rs calls it: press/release/tap/toggle), (hold-for-duration 4) and (hold-for-duration 14), and a completed defseq sequence. Histories: ALL sequences of N operations over this 12-operation alphabet with inter-operation gaps from {3,4,5,9,14,15} (quick: N=3 with all gaps and N=4 with gaps {3,9}; thorough: N=4 with all gaps), then settle; a race family with gaps {0,1} over the TCP operations only; a layer family (the virtual key's action is layer-while-held; press / release / toggle from physical keys, a macro, on-release and the TCP path; ALL operation sequences of length <= 4 with a layer-dependent probe key tapped after every operation); on-idle family through the idle loop twin (can_block_update_idle_waiting/tick): idle time I in {4,6}, activity injected at every offset. Oracle VkeySpec: one boolean per virtual key (press sets, release clears, tap pulses, toggle flips; identical from every source); number of press pulses of x and final state equal the model's; hold-for-duration: x goes up exactly D ticks after the arrival of the most recent activation when nothing else touches the key in between, never earlier; on-idle: fires exactly once, I idle ticks after the last activity, not before.",
+        rule: "config: virtual key v1 = x (and v2 = layer-while-held, observed through a layer-dependent key) operated by: physical keys with (on-press press|release|tap|toggle-vkey), (on-release toggle-vkey), a macro item, the TCP path (handle_fakekey_action exactly as tcp_server.rs calls it: press/release/tap/toggle), (hold-for-duration 4) and (hold-for-duration 14), and a completed defseq sequence. Histories: ALL sequences of N operations over this 12-operation alphabet with inter-operation gaps from {3,4,5,9,14,15} (quick: N=3 with all gaps and N=4 with gaps {3,9}; thorough: N=4 with all gaps), then settle; a race family with gaps {0,1} over the TCP operations only; a macro-collision family (a macro presses and releases v1 while another key carrying a custom action is pressed and released at EVERY tick offset of the macro: each virtual key shows exactly one pulse, nothing stays pressed); a layer family (the virtual key's action is layer-while-held; press / release / toggle from physical keys, a macro, on-release and the TCP path; ALL operation sequences of length <= 4 with a layer-dependent probe key tapped after every operation); on-idle family through the idle loop twin (can_block_update_idle_waiting/tick): idle time I in {4,6}, activity injected at every offset. Oracle VkeySpec: one boolean per virtual key (press sets, release clears, tap pulses, toggle flips; identical from every source); number of press pulses of x and final state equal the model's; hold-for-duration: x goes up exactly D ticks after the arrival of the most recent activation when nothing else touches the key in between, never earlier; on-idle: fires exactly once, I idle ticks after the last activity, not before.",
         assumptions: &["operations are at least 3 ticks apart in the main family so that each has been processed before the next reads the key state (the 0/1-tick race family is reported separately)", "the TCP source is exercised through the function tcp_server.rs calls, not through a socket"],
         required_level,
         min_outcomes: 3,
@@ -78,6 +78,9 @@ enum Job {
     Sequence,
     /// virtual key whose action holds a layer, observed through a layer-dependent probe key
     LayerKey,
+    /// a macro that presses and releases v1 while another key with a custom action (operating v2) is
+    /// pressed / released at EVERY tick offset of the macro
+    MacroCollision,
 }
 
 fn jobs(tier: Tier) -> &'static Vec<Job> {
@@ -88,7 +91,7 @@ fn jobs(tier: Tier) -> &'static Vec<Job> {
         Tier::Thorough => &T,
     };
     cell.get_or_init(|| {
-        let mut v = vec![Job::Race, Job::OnIdle, Job::Sequence, Job::LayerKey];
+        let mut v = vec![Job::Race, Job::OnIdle, Job::Sequence, Job::LayerKey, Job::MacroCollision];
         for first in 0..OPS.len() * GAPS.len() {
             v.push(Job::Main { first, n: 3, level: 0, restricted: false });
             if GAPS[first % GAPS.len()] == 3 || GAPS[first % GAPS.len()] == 9 {
@@ -507,6 +510,67 @@ fn run_layer_key(st: &mut Stats, found: &mut Vec<Violation>) {
     st.sample(json!({"family": "layer-key", "cfg": LCFG, "sequences": "all operation sequences of length 1..4 over 8 operations"}));
 }
 
+/// Macro-collision family: "the same effect whether triggered from a key, a macro ...": the macro on a
+/// presses v1, waits, releases v1; independently another key with a custom action (tap / press+release
+/// of v2, or a mouse button) is pressed and released at EVERY offset of the macro's run. Both virtual
+/// keys must each show exactly one press pulse and nothing may stay pressed.
+const MCFG: &str = "(defcfg)\n(defsrc a b c d)\n(defvirtualkeys v1 x v2 y)\n(deflayer base (macro 2 (on-press press-vkey v1) 6 (on-press release-vkey v1)) (on-press tap-vkey v2) (multi (on-press press-vkey v2) (on-release release-vkey v2)) mlft)\n";
+
+fn run_macro_collision(st: &mut Stats, found: &mut Vec<Violation>) {
+    if let Err(e) = Sim::new(MCFG) {
+        found.push(Violation { property: "C18".into(), signature: "macro-collision/rejected".into(), what: e.chars().take(300).collect(), detail: json!({"kind": "macro-collision", "cfg": MCFG, "history": ""}) });
+        return;
+    }
+    for other in ["b", "c", "d"] {
+        for off in 0..16u32 {
+            for hold in [0u32, 1, 2, 5] {
+                let mut h = vec![Ev::T(2), Ev::P(kc("a")), Ev::T(1), Ev::R(kc("a"))];
+                // the other key goes down `off` ticks after the macro key's release and stays `hold` ticks
+                if off > 0 {
+                    h.push(Ev::T(off));
+                }
+                h.push(Ev::P(kc(other)));
+                if hold > 0 {
+                    h.push(Ev::T(hold));
+                }
+                h.push(Ev::R(kc(other)));
+                h.push(Ev::T(40));
+                crate::par::announce(MCFG, &h);
+                st.evaluations += 1;
+                match crate::sim::run_fresh(MCFG, &h) {
+                    Err(m) => {
+                        if found.len() < 3 {
+                            found.push(mk_violation("C18", format!("macro-collision/{}", panic_signature(&m)), m, "macro-collision", MCFG, &h, json!({})));
+                        }
+                    }
+                    Ok((_, tr)) => {
+                        st.validated += 1;
+                        st.transitions += h.len() as u64;
+                        let xd = tr.iter().filter(|(_, o)| matches!(o, Out::Down(k) if k == "X")).count();
+                        let xu = tr.iter().filter(|(_, o)| matches!(o, Out::Up(k) if k == "X")).count();
+                        let yd = tr.iter().filter(|(_, o)| matches!(o, Out::Down(k) if k == "Y")).count();
+                        let held = crate::sim::os_down_set(&tr);
+                        st.outcome("macro-collision");
+                        let want_y = if other == "d" { 0 } else { 1 };
+                        if (xd != 1 || xu != 1 || yd != want_y || !held.is_empty()) && !found.iter().any(|f| f.signature == "macro-collision/lost-or-stuck") {
+                            found.push(mk_violation(
+                                "C18",
+                                "macro-collision/lost-or-stuck".into(),
+                                format!("macro presses and releases v1 (x) while key {other} (custom action) is pressed {off} ticks later for {hold} ticks: x pressed {xd}x released {xu}x, y pressed {yd}x (expected 1/1/{want_y}), still held {held:?}; trace [{}]", crate::sim::trace_to_string(&tr)),
+                                "macro-collision",
+                                MCFG,
+                                &h,
+                                json!({}),
+                            ));
+                        }
+                    }
+                }
+            }
+        }
+    }
+    st.sample(json!({"family": "macro-collision", "cfg": MCFG, "cases": "3 other keys x 16 offsets x 4 hold lengths"}));
+}
+
 fn run_job(tier: Tier, idx: usize, st: &mut Stats) {
     if idx == 0 {
         if let Err(e) = Sim::new(CFG) {
@@ -527,6 +591,7 @@ fn run_job(tier: Tier, idx: usize, st: &mut Stats) {
         Job::OnIdle => run_on_idle(st, &mut found),
         Job::Sequence => run_sequence(st, &mut found),
         Job::LayerKey => run_layer_key(st, &mut found),
+        Job::MacroCollision => run_macro_collision(st, &mut found),
     }
     for v in found {
         st.violation(v);
@@ -541,6 +606,7 @@ fn replay(d: &serde_json::Value) -> Vec<Violation> {
         "sequence" => run_sequence(&mut st, &mut found),
         "race" => run_race(&mut st, &mut found),
         "layer-key" => run_layer_key(&mut st, &mut found),
+        "macro-collision" => run_macro_collision(&mut st, &mut found),
         _ => {
             if let Some(ops) = d.get("extra").and_then(|e| e.get("ops")).and_then(|o| o.as_array()) {
                 let ops: Vec<(u32, Op)> = ops.iter().filter_map(|x| x.as_u64()).map(|i| (GAPS[i as usize % GAPS.len()], OPS[i as usize / GAPS.len()])).collect();
